@@ -4,6 +4,7 @@
 set -u
 patch="$(realpath "$1")"; shift
 cd /verif
+exec 9>/tmp/verif-repo.lock; flock 9
 if ! git -C /repo diff --quiet; then echo "probe: /repo has uncommitted changes" >&2; exit 2; fi
 if ! git -C /repo apply "$patch"; then echo "probe: patch does not apply" >&2; exit 2; fi
 trap 'git -C /repo checkout -- . ; git -C /repo clean -fdq -- zlink* 2>/dev/null' EXIT
